@@ -41,10 +41,19 @@ def main():
                          'undone_with': 'git -C /repo checkout -- .', 'wall_s': round(dt, 1)}
         json.dump(meta, open(mp, 'w'), indent=1)
         print(rows[-1][:3], flush=True)
+    # the table is rebuilt from every meta.json, so a partial run refreshes only its own rows
     with open(f'{V}/seeded/MATRIX.md', 'w') as f:
-        f.write('# Seeded changes vs checks (quick tier, seed 1)\n\n| change | property | result | what fired | wall s |\n|---|---|---|---|---|\n')
-        for r in rows:
-            f.write(f'| {r[0]} | {r[1]} | {r[2]} | {r[3].replace("|", "/")} | {r[4]:.0f} |\n')
+        f.write('# Seeded changes vs checks (quick tier, seed 1)\n\nEach row: the change was applied with `git -C /repo apply`, the property\'s quick check was run, the change was undone.\n\n'
+                '| change | property | result | what fired | wall s |\n|---|---|---|---|---|\n')
+        for d in sorted(os.listdir(f'{V}/seeded')):
+            mp = f'{V}/seeded/{d}/meta.json'
+            if not os.path.exists(mp):
+                continue
+            v = json.load(open(mp)).get('verif')
+            if not v:
+                continue
+            what = ((v.get('violations_by_key') or '') + ' :: ' + (v.get('first_report') or '')).replace('|', '/')
+            f.write(f"| {d} | {d.split('-')[0]} | {'DETECTED' if v.get('detected') else 'missed'} | {what} | {v.get('wall_s', 0):.0f} |\n")
     print('missed:', [r[0] for r in rows if r[2] != 'DETECTED'])
 if __name__ == '__main__':
     main()
